@@ -108,7 +108,80 @@ def collect(ctx: Ctx):
                 l._disconnect()
 
     vloop.run(loop, go())
-    return vectors + via
+    return vectors + via + placements(ctx, vectors)
+
+
+def self_delimiting(v):
+    """Alterations that leave start marker and length field alone: the framer still sees one packet of the original size."""
+    kind, a, b = v["mut"]
+    return kind in ("flip", "sub") and a not in (0, 1, 4, 5) and len(v["q"]) == len(v["orig"])
+
+
+def placements(ctx, vectors):
+    """The altered packet at other places of the conversation than 'the reply':
+       after   - right behind the authentic reply of the same exchange (read by the non-blocking drain)
+       idle    - delivered while the client is idle on a live connection; the NEXT exchange meets it first
+       v3      - carried inside a correctly encrypted and tagged V3 packet on an authenticated V3 session
+    In every case the exchange that reads the altered packet must end in a protocol error."""
+    from msmart.lan import LAN
+    from .. import sched
+    rng = ctx.rng
+    cand = [v for v in vectors if v["kind"] == "mutant" and self_delimiting(v)]
+    sample = rng.sample(cand, min(len(cand), ctx.pick(240, 3000)))
+    out = []
+    loop = vloop.new_loop()
+    net = vloop.Net(loop)
+    state = {"replies": []}
+
+    def on_bytes(tr, data):
+        for r in state["replies"]:
+            loop.call_soon(tr.feed, r)
+    net.on_bytes = on_bytes
+
+    async def one(l, coro_replies):
+        state["replies"] = coro_replies
+        try:
+            r = await l.send(b"\xaa\x01", retries=1)
+            return {"k": "frame", "f": B(r[-1]) if r else []}
+        except Exception as e:  # noqa: BLE001 - code under test
+            return {"k": "raise", "exc": type(e).__name__}
+
+    async def go():
+        for k, v in enumerate(sample[: 2 * len(sample) // 3]):
+            l = LAN("10.0.0.1", 6444, 1)
+            orig, q = bytes(v["orig"]), bytes(v["q"])
+            if k % 2 == 0:
+                res = await one(l, [orig, q])                       # after
+                mode = "after the authentic reply"
+            else:
+                await one(l, [orig])                                # a normal exchange, connection stays up
+                net.conns[-1].feed(q)                               # idle
+                res = await one(l, [orig])
+                mode = "while idle, before the next exchange"
+            out.append(dict(v, res=res, via="LAN.send, " + mode))
+            if l._protocol:
+                l._disconnect()
+    vloop.run(loop, go())
+    # inside a valid V3 packet
+    s = sched.Session(version=3, retries=1, seed=ctx.seed)
+    try:
+        s.call_auth("good")
+        s.settle()
+        for v in sample[2 * len(sample) // 3:]:
+            if s.lan._protocol is None or not s.lan._protocol.authenticated:
+                s.call_send()
+                s.settle()                                           # brings a fresh, authenticated connection up
+            key = s.dev.sess[len(s.net.conns) - 1]["key"]
+            pkt = landev.v3_enc_packet(key, bytes(v["q"]), 5)
+            r = "raw:" + pkt.hex()
+            s.call_send(reply=r)
+            e = s.settle(data=r)
+            res = {"k": "frame", "f": B(s.last_frames[-1]) if getattr(s, "last_frames", None) else []} if e["r"] == "frames" else \
+                  {"k": "raise", "exc": {"proto": "ProtocolError", "timeout": "TimeoutError", "auth": "AuthenticationError"}.get(e["r"], e["r"])}
+            out.append(dict(v, res=res, via="LAN.send, inside a valid V3 packet"))
+    finally:
+        s.close()
+    return out
 
 
 def judge(ctx, vectors, canaries=True):
@@ -128,7 +201,7 @@ def judge(ctx, vectors, canaries=True):
         if i < n:
             v = vectors[i]
             ctx.violation(f"{v['mut'][0]} at {v['mut'][1]} ({v['mut'][2]}) of a packet carrying a {len(v['frame'])}-byte frame"
-                          + (" via LAN.send" if v.get("via") else ""), clause,
+                          + ((" via " + v["via"]) if v.get("via") else ""), clause,
                           {"mut": v["mut"], "frame": v["frame"], "orig": v["orig"], "q": v["q"], "res": v["res"], "via": v.get("via", "")})
 
 
@@ -143,7 +216,7 @@ def run(ctx: Ctx) -> int:
     return ctx.finish(
         rule="authentic packets for frame lengths 0,1,15,16,17,34 (+48,255): every single-bit flip at every position, every truncation "
              "length, byte substitutions (quick 8 values, thorough all 255), random multi-byte corruptions, fed to _Packet.decode and "
-             "(sampled) delivered as the device's reply to LAN.send; distinct = distinct altered byte strings (x entry point)",
+             "(sampled) delivered through LAN.send as the reply, right behind an authentic reply, while idle before the next exchange, and inside a valid V3 packet; distinct = distinct altered byte strings (x entry point)",
         assumptions=["MD5 collisions are not considered: the reference MD5 of the altered packet decides whether a mutant is acceptable"])
 
 
